@@ -3,7 +3,7 @@ From Coq Require Import ZArith Bool PrimFloat.
 From UV Require Import Num FloatFns.
 Definition FNum : Num :=
   mkNum 0%float 1%float PrimFloat.add PrimFloat.sub PrimFloat.mul PrimFloat.div PrimFloat.opp
-        PrimFloat.abs PrimFloat.sqrt f_exp f_ln f_pow PrimFloat.leb PrimFloat.ltb PrimFloat.eqb f_of_Z.
+        PrimFloat.abs PrimFloat.sqrt f_exp f_ln f_pow PrimFloat.leb PrimFloat.ltb PrimFloat.eqb f_of_Z f_to_Z.
 
 (* tolerance comparison used by verdict functions: NaN ~ NaN, inf ~ same inf *)
 Open Scope bool_scope. Open Scope float_scope.
